@@ -36,7 +36,7 @@ var gomaxprocsValues = []int{2, 16}
 
 func planCases(d *mon.Driver) []CaseData {
 	r := d.Rand("cases")
-	perP := d.N(24, 500)
+	perP := d.N(24, 600)
 	var cases []CaseData
 	for _, p := range gomaxprocsValues {
 		for i := 0; i < perP; i++ {
@@ -255,7 +255,11 @@ func drive(d *mon.Driver, replay string) int {
 			}
 			sig, fatal := fatalSignature(stderr)
 			if sig == "" {
-				sig = "worker-died:" + exit
+				// no Go fatal error or panic on stderr: the process was killed from outside (e.g. the
+				// kernel's OOM killer on a loaded machine); nothing can be concluded from that
+				d.Event("worker_killed_without_go_fatal", 1)
+				d.Inconclusive("worker " + mc.ID + " ended without a Go fatal error or panic: " + exit)
+				return
 			}
 			d.Event("worker_deaths", 1)
 			violation(sig, fmt.Sprintf("the worker process died while %d goroutines evaluated on separate VMs: %s (%s)\nprocess: %s GOMAXPROCS=%d mode=%s kinds=%s\n%s",
